@@ -119,8 +119,13 @@ def run_one(s):
             tr["len_after"] = int(r2[1]) if r2[0] == "ok" else -1
         else:
             tr["free"] = {"rows": [], "exc": r[1] if len(r) > 1 else "hang", "msg": r[2] if len(r) > 2 else ""}
+    # the second call gets the same number of parameter rows with OTHER values
+    pvals2 = [1, 3, 2][:k]
+    P2 = Points(torch.tensor([[float(v)] for v in pvals2]), R1(pvar)) if k else Points.empty()
+    tr["P2"] = [{pvar: {"vid": v, "dep": -1, "did": v if pvar == "t" else -1, "fr12": -1, "half": 0}} for v in pvals2]
     for rep in range(2):
-        r = watched(lambda: smp.sample_points(P) if k else smp.sample_points())
+        PP = P if rep == 0 else P2
+        r = watched(lambda: smp.sample_points(PP) if k else smp.sample_points())
         if r[0] == "ok":
             tr["calls"].append({"rows": decode(r[1], smp_ast, pvar, vids), "exc": ""})
         else:
